@@ -287,12 +287,15 @@ class Explorer:
             if any(v is UNKNOWN for v in vals):
                 return UNKNOWN
             return tuple(vals)
-        if isinstance(e, (ast.ListComp, ast.GeneratorExp, ast.SetComp)):
+        if isinstance(e, (ast.ListComp, ast.GeneratorExp, ast.SetComp, ast.DictComp)):
             out = []
 
             def gen(i, env2):
                 if i == len(e.generators):
-                    out.append(self.ev(e.elt, env2))
+                    if isinstance(e, ast.DictComp):
+                        out.append((self.ev(e.key, env2), self.ev(e.value, env2)))
+                    else:
+                        out.append(self.ev(e.elt, env2))
                     return True
                 g = e.generators[i]
                 seq = self.ev(g.iter, env2)
@@ -318,6 +321,13 @@ class Explorer:
                     if ok and not gen(i + 1, env3):
                         return False
                 return True
+            if isinstance(e, ast.DictComp):
+                if not gen(0, env) or any(k is UNKNOWN for k, _v in out):
+                    return UNKNOWN
+                try:
+                    return dict(out)
+                except TypeError:
+                    return UNKNOWN
             if not gen(0, env) or any(x is UNKNOWN for x in out):
                 return UNKNOWN
             return tuple(out)
